@@ -5,6 +5,9 @@ UNITS = [
     Unit('nodes', harness=['h_nodes.cpp'], repo_units=[]),
     Unit('vec', harness=['h_vec.cpp'], repo_units=['asmjit/support/arenavector.cpp', 'asmjit/support/arenabitset.cpp']),
     Unit('string', harness=['h_string.cpp'], repo_units=['asmjit/core/string.cpp']),
+    # embedded representation: pad_end's memset length is symbolic for the solver (size field overlays the characters); CBMC's
+    # built-in memset loses such writes (spurious counterexamples), so this unit gives the solver a byte-loop memset
+    Unit('string_sso', harness=['h_string.cpp'], repo_units=['asmjit/core/string.cpp'], extra_c=['stubs_memset.c']),
     # bit sets: the word loops become mem* calls with symbolic lengths; the solver gets byte-loop models of those (stubs_mem.c)
     Unit('bits', harness=['h_vec.cpp'], repo_units=['asmjit/support/arenavector.cpp', 'asmjit/support/arenabitset.cpp'], extra_c=['stubs_mem.c']),
 ]
@@ -77,23 +80,34 @@ HARNESSES = [
     Harness('bits', 'h_bitword_iter', unwind=66, bounds='all non-zero 64-bit / 32-bit words: one next(); BitVectorOpIterator<AndNot> over 2x2 symbolic words from any start: init + first next()', mem_gb=4, timeout=900),
 ] + [
 ] + [
-    Harness('string', 'h_string_%s_%s' % (kind, grp), unwind=36, mem_gb=4, timeout=900, bounds=what + '; symbolic characters; one of ' + ops)
-    for kind, what in (('small', 'embedded string (capacity 30), (length, n) in {(0,30),(5,25),(5,26),(30,1),(12,33)}'),
+    Harness('string_sso' if kind == 'small' else 'string', 'h_string_%s_%s' % (kind, grp), unwind=36, mem_gb=8 if kind == 'small' else 4, timeout=1800,
+            tiers=('thorough',) if kind == 'small' else ('quick', 'thorough'), bounds=what + '; symbolic characters; one of ' + ops)
+    for kind, what in (('small', 'embedded string (capacity 30), (length, n) in {(5,25),(5,26),(30,1)}'),
                        ('tmp', 'StringTmp<8> (external buffer, capacity 15), (length, n) in {(0,15),(0,16),(8,7),(8,8),(15,3)}'),
                        ('heap', 'heap string (capacity 15), (length, n) in {(0,15),(8,7),(8,8),(15,2)}'))
     for grp, ops in (('a', 'assign / append / append(char) / append_chars'), ('b', 'pad_end / truncate / clear / assign(char)'), ('c', 'assign_chars / assign(String) / reset'))
 ] + [
     Harness('string', 'h_string_huge', unwind=8, bounds='prepare (append, assign) / append_chars / append_hex with every length the size arithmetic must refuse (>= SIZE_MAX - 16 MiB - 2; hex: >= SIZE_MAX/2 or /3)', mem_gb=3, timeout=600),
     Harness('string', 'h_string_hex', unwind=48, bounds='append_hex of 0..5 symbolic bytes with and without separator onto 0..31 characters of a StringTmp<32>', mem_gb=4, timeout=900),
-    Harness('string', 'h_string_num_hex', unwind=132, bounds='append_uint/append_int, all 2^64 values, bases 16/2/8, flag and width combinations (none; alternate; alternate+sign width 18; space width 24)', mem_gb=6, timeout=1200),
-    Harness('string', 'h_string_num_dec32', unwind=132, bounds='append_uint/append_int base 10 (and base 0), all 32-bit values, widths 0/5/12, sign flags', mem_gb=6, timeout=1200),
-    Harness('string', 'h_string_num_dec64', unwind=132, tiers=('thorough',), bounds='append_uint/append_int base 10, all 2^64 values', mem_gb=8, timeout=3000),
+] + [
+    Harness('string', 'h_string_num_' + nm, unwind=u, mem_gb=6, timeout=3000, tiers=tiers, bounds=b)
+    for nm, u, tiers, b in (
+        ('hex64', 66, ('quick', 'thorough'), 'append_uint base 16, all 2^64 values'),
+        ('hex64_alt', 66, ('thorough',), 'append_int base 16, alternate form + show-sign, width 18, all 2^64 values'),
+        ('oct32', 34, ('quick', 'thorough'), 'append_uint base 8, alternate form, all 2^32 values'),
+        ('bin16', 34, ('thorough',), 'append_int base 2, show-space, all values -2^15..2^15-1'),
+        ('dec16', 34, ('quick', 'thorough'), 'append_int base 10, all values -2^15..2^15-1'),
+        ('dec32', 34, ('thorough',), 'append_uint base 10, all 2^32 values (measured: 1343 s)'),
+        ('dec32_signed', 34, ('thorough',), 'append_int base 0 (=10), show-sign, width 12, all 32-bit signed values'),
+        )
+] + [
     Harness('string', 'h_string_num_badbase', unwind=8, bounds='any base other than 0/2/8/10/16, any value, width, flags', mem_gb=3, timeout=600),
 ]
 EXPLANATION = 'bounded symbolic execution (CBMC) of the real container code compiled from /repo; one operation from an arbitrary valid pre-state built in the harness, compared with an abstract model (plain arrays)'
 OUTSIDE = ['ArenaHash: insert into / rehash of tables with 2 and 11 buckets holding more than 2 nodes when the target has 29 buckets (no verdict from the SAT back end within 15 min); hash codes wider than 8 bits in the table harnesses (16 bits in h_hash_mod)',
-           'ArenaTree: trees of more than 5 nodes (quick: more than 3)']
+           'ArenaTree: trees of more than 5 nodes (quick: more than 3)',
+           'String: decimal formatting of values wider than 32 bits (the /10 digit loop: 32-bit values already take 22 min of SAT time); String::_op_format / vsnprintf paths']
 ASSUMPTIONS = ['malloc never fails (allocation failure is C15)',
                'vector / bit set harnesses: Arena::_alloc_reusable and _release_dynamic are harness stubs (one typed 512-byte pool, allocated size reported as the real arena does)',
-               'bit set harnesses: memset/memcpy/memmove are byte loops for the solver (CBMC\'s built-in models lose writes of symbolic length into the middle of an object)',
+               'bit set and embedded-string harnesses: memset (and for the bit sets memcpy/memmove) are byte loops for the solver (CBMC\'s built-in models lose writes of symbolic length into the middle of an object)',
                'hash harnesses: Arena::_alloc_reusable_zeroed is a harness stub returning a zeroed typed pool (the arena itself is checked by the h_arena_* harnesses)']
